@@ -10,6 +10,10 @@ func init() {
 		Assumptions: []string{"A5"},
 		Run: func(c *Ctx) {
 			ruleJSONDispatch(c)
+			// the entry grammar of the two containers and of a typed value (one entry per element, never empty)
+			ruleSpec(c, func(n string) bool { return strings.Contains(n, "JSON") })
+			c.Floor("S.spec", 2)
+			ruleJSONValueSpec(c)
 			ruleTightGuards(c, decodeBound(c.P), func(n string) bool { return strings.Contains(n, "JSON") })
 			c.Floor("X.tightguard", 8)
 			ruleRejects(c, decodeBound(c.P), func(n string) bool { return strings.Contains(n, "JSON") })
